@@ -331,6 +331,13 @@ func TestAllocs(t *testing.T) {
 				c.Routes = append(c.Routes, rt.RouteSpec{Method: m, Pattern: p})
 				c.Reqs = append(c.Reqs, rt.Req{Method: m, Path: strings.NewReplacer("{p}", "x", "*{c}", "a/b").Replace(p)})
 			}
+			if gen.Chance(t, 1, 2, "manyverbs") {
+				// one pattern under many verbs
+				for _, m := range []string{"GET", "HEAD", "POST", "PUT", "PATCH", "DELETE", "CONNECT", "OPTIONS", "TRACE", "FOO", "BAR"}[:gen.IntR(t, 7, 11, "nmany")] {
+					c.Routes = append(c.Routes, rt.RouteSpec{Method: m, Pattern: "/vv/{p}"})
+				}
+				c.Reqs = append(c.Reqs, rt.Req{Method: "GET", Path: "/vv/x"})
+			}
 			nreq = 2
 			stats.Class("shape:several-uncommon-verbs")
 		}
